@@ -89,6 +89,21 @@ def build_inner(ctx, nw, ni, share, with_b, mark, max_idle, idle_timeout=None, o
     return inner
 
 
+def extract_release(p, m):
+    """the release-path counterexamples that have a public-API replay: a closed connection handed
+    back (delivered to a waiting request), or an open one not kept"""
+    return {"family": "pool_closed_handback"}
+
+
+def judge_release(scn, out):
+    if out.get("result", "").startswith(("panic", "crash")):
+        return True
+    claim = scn.get("claim", "")
+    if "closed connection" in claim or "handed back" in claim:
+        return any(out.get(k) != "200" for k in ("a", "c", "d"))
+    return None
+
+
 def obligations(prog, src, tier, seed, which, select=None):
     obs = []
     PM = r"pool::<impl at src/client/pool/mod\.rs:\d+:\d+: \d+:\d+>::"
@@ -293,7 +308,8 @@ def obligations(prog, src, tier, seed, which, select=None):
     obs.append({"name": f"{which.lower()}_pool_release_path", "family": "pool_release_path", "funcs": ["<Pooled as Drop>::drop", "<WhenReady as Future>::poll", "<WhenReady as Drop>::drop", "client::pool::PoolRef::lock", "client::pool::PoolInner::push"],
                 "bound": "shareable or not, pool token zero/non-zero, pool alive or dropped, readiness scripts of <= 3 polls ending in Ok/Err/never, task cancelled after any number of polls, 0..1 idle entries before",
                 "doc": "release -> hand-back: only non-shareable connections get a task; the connection re-enters the pool only when the task ends, only if open and pool-managed, at most once; never while still waiting for readiness; no deadlock on the pool mutex",
-                "run": run_release, "check": check_release, "crosscheck": False, "max_paths": 20000})
+                "run": run_release, "check": check_release, "crosscheck": False, "max_paths": 20000,
+                "cex_extract": extract_release, "judge": judge_release})
 
     # ------------------------------------------------------------------------------------------------
     # Pool::checkout (synchronous part of acquiring a connection) and register_connected
